@@ -32,7 +32,7 @@ D = datetime.datetime
 NAMES = ['a', 'b', 'c', 'd']
 # column names that are also parameter names of dictable.__init__: legal keys of a dict of columns, of records, of
 # d[key] = value and targets of relabel - and swallowed wherever the code expands the columns into keywords
-RNAMES = ['data', 'columns']
+RNAMES = ['data', 'columns', 'key']      # `key`: Dict.__call__ offers every callable `key = <name of the new column>` as a default
 CELLS = [None, None, 0, 1, 2, 3, -1, 7, 1.0, 2.5, -0.25, 0.5, 'x', 'y', 'zz', '', D(2020, 1, 1), D(2021, 6, 30, 12)]
 MAXH = 6
 
@@ -679,6 +679,9 @@ def g_op(S):
             S.tags.add('call-const-misfit')
             return
         avail = list(idc)
+        if 'key' not in avail and rng.random() < 0.12:
+            avail.append('key')      # not a column: the callable receives the NAME of the column it defines
+            S.tags.add('call-key-default')
         if rng.random() < 0.5:
             k = rng.choice(NAMES)
             items[k] = enc(S.fit(n)[0])
